@@ -149,7 +149,10 @@ struct Gen {
     for (const auto& it : items) if (it.live && it.alias == a) return &it;
     return nullptr;
   }
-  std::string pickOf(const std::vector<std::string>& v) { return v[static_cast<size_t>(idx(static_cast<int>(v.size())))]; }
+  std::string pickOf(const std::vector<std::string>& v) {  // candidates are in creation order: favour the most recent one (longer dependency chains)
+    if (v.size() > 1 && c.chance(1, 3)) return v.back();
+    return v[static_cast<size_t>(idx(static_cast<int>(v.size())))];
+  }
   std::string freeAlias(Kind k, int skip) const {  // the (skip+1)-th free alias of the kind; skip 0 is what the library generates
     for (int i = 1;; ++i) {
       const std::string a = kLetter[k] + std::to_string(i);
